@@ -79,6 +79,25 @@ func VerifH_C26_route() {
 	sym.Reach("route")
 }
 
+// VerifH_C26_history: the route of a request does not depend on which requests the producer routed before:
+// producer 1 first routes an arbitrary request of 0-3 bytes, then one of its sub-paths (one or two more
+// components); a fresh producer routes only the sub-path.
+func VerifH_C26_history() {
+	fs := vstore.NewFS()
+	p1, p2 := vProducerOver(fs, 0), vProducerOver(fs, 0)
+	first := vReq("first")
+	comp := [...]string{"a", "b"}
+	req := first + "/" + comp[sym.Choice("c1", 2)]
+	if sym.Choice("deeper", 2) == 1 {
+		req += "/" + comp[sym.Choice("c2", 2)]
+	}
+	before := p1.RouteOf(first)
+	got, want := p1.RouteOf(req), p2.RouteOf(req)
+	sym.Assert(got == want, "routing is a function of the request: it does not depend on the requests routed before")
+	sym.Assert(p1.RouteOf(first) == before && p2.RouteOf(first) == before, "routing the same request again gives the same route")
+	sym.Reach("history")
+}
+
 // VerifH_C26_isolation: two arbitrary requests opened one after the other: if both succeed and live in
 // the same database, their tables are not prefixes of one another (unless the requests are equal), so
 // a key written through one is invisible through the other; re-opening (also through a second producer
